@@ -84,3 +84,46 @@ Proof.
   unfold fetch_result_ok in H. destruct H as (_ & _ & H & _). intros Hf Hmiss.
   destruct (H Hf) as [_ H1]. rewrite Hmiss in H1. exact H1.
 Qed.
+
+(* ---------------------------------------------------------------- listed but gone: fetch is total *)
+
+(* TocCache.fetch with exceptions explicit.  HEAD: every access to the file (open, read, parse, decode) is inside
+   the try/except: a file that is listed in _cache_files but no longer exists (deleted, replaced by a directory,
+   unreadable) is a miss.  `guarded = false` models a stat (os.path.getsize) placed before the guard: it raises
+   for a file that is gone. *)
+Inductive fres := FOk (r : lres) | FRaise.
+
+Definition cfetch_x {C} (guarded : bool) (par : C -> option jdoc) (st : cstate) (fs : fsys C) (crc : Z) : fres :=
+  match last_match (cache_name crc) (c_files st) None with
+  | None => FOk Miss
+  | Some (d, nm) =>
+      match dget nm (files d fs) with
+      | None => if guarded then FOk Miss else FRaise            (* FileNotFoundError *)
+      | Some content =>
+          match par content with
+          | None => FOk Miss
+          | Some doc => FOk (load doc)
+          end
+      end
+  end.
+
+(* HEAD's fetch never raises, in EVERY state of the object and of the file system (incl. "listed but gone"), and
+   it is the cfetch of the model *)
+Lemma fetch_total {C} (par : C -> option jdoc) st fs crc : cfetch_x true par st fs crc = FOk (cfetch par st fs crc).
+Proof.
+  unfold cfetch_x, cfetch. destruct (last_match (cache_name crc) (c_files st) None) as [[d nm]|]; [|reflexivity].
+  destruct (dget nm (files d fs)) as [ct|]; [|reflexivity]. destruct (par ct); reflexivity.
+Qed.
+
+Lemma listed_but_gone_is_miss {C} (par : C -> option jdoc) st (fs : fsys C) crc d nm :
+  last_match (cache_name crc) (c_files st) None = Some (d, nm) -> dget nm (files d fs) = None ->
+  cfetch par st fs crc = Miss.
+Proof. intros H1 H2. unfold cfetch. now rewrite H1, H2. Qed.
+
+(* refutation of the stat outside the guard: the object stored a table itself, the file is deleted, the next fetch
+   of that checksum raises instead of missing *)
+Lemma stat_outside_guard_refuted :
+  let st := mkC [(RW, cache_name 7)] true in
+  let fs := @mkFs (list Z) [] [] in
+  cfetch_x false (fun _ => None) st fs 7 = FRaise /\ cfetch_x true (fun _ => None) st fs 7 = FOk Miss.
+Proof. split; reflexivity. Qed.
